@@ -801,10 +801,78 @@ func runB4(p *an.Prog, r *an.Result) {
 		}
 		sites = append(sites, site{rank, n.Obj().Name(), inner, al.Pos(), al})
 	})
+	// a modifier applied by a helper of its own (applyLoopOffset(loop, ctx, iter)): the helper builds one kind of
+	// wrapper around one of its parameters; its call stands for the construction, around that argument
+	helperRank := map[*ssa.Function]int{}
+	for _, h := range unitWithHelpers(p, fn) {
+		if h == fn || h.Parent() != nil {
+			continue
+		}
+		only := true
+		for _, cs := range callSitesOf(p, h) {
+			if an.Outermost(cs.Parent()) != fn {
+				only = false
+			}
+		}
+		if !only {
+			continue
+		}
+		var hs []site
+		parIdx := -1
+		an.EachInstr(h, func(in ssa.Instruction) {
+			al, ok := in.(*ssa.Alloc)
+			if !ok {
+				return
+			}
+			n := an.NamedOf(al.Type())
+			if n == nil {
+				return
+			}
+			rank, ok := order[n.Obj().Name()]
+			if !ok || al.Referrers() == nil {
+				return
+			}
+			for _, u := range *al.Referrers() {
+				if fa, ok := u.(*ssa.FieldAddr); ok && fa.Field == 0 && fa.Referrers() != nil {
+					for _, uu := range *fa.Referrers() {
+						if st, ok := uu.(*ssa.Store); ok {
+							for _, o := range an.Origins(st.Val, an.StepValue) {
+								for k, pp := range h.Params {
+									if o == ssa.Value(pp) {
+										parIdx = k
+									}
+								}
+							}
+							hs = append(hs, site{rank, n.Obj().Name(), st.Val, al.Pos(), al})
+						}
+					}
+				}
+			}
+		})
+		if len(hs) != 1 || parIdx < 0 {
+			continue
+		}
+		helperRank[h] = hs[0].rank
+		for _, cs := range callSitesOf(p, h) {
+			if parIdx < len(cs.Call.Args) {
+				sites = append(sites, site{hs[0].rank, hs[0].tname, cs.Call.Args[parIdx], cs.Pos(), nil})
+			}
+		}
+	}
 	r.Counts["wrapper constructions"] = len(sites)
 	seenRank := map[int]bool{}
 	rankOfOrigin := func(v ssa.Value) (int, bool) {
 		// origin of a wrapped value: parameter iter (-1) or a wrapper of some rank
+		if ex, ok := v.(*ssa.Extract); ok {
+			v = ex.Tuple
+		}
+		if c, ok := v.(*ssa.Call); ok {
+			if callee := c.Call.StaticCallee(); callee != nil {
+				if rk, ok := helperRank[callee]; ok {
+					return rk, true
+				}
+			}
+		}
 		switch x := v.(type) {
 		case *ssa.Parameter:
 			return -1, true
@@ -847,7 +915,7 @@ func runB4(p *an.Prog, r *an.Result) {
 	}
 	// the wrappers are constructed only here
 	for _, f := range p.Funcs {
-		if f == fn || isMainPkg(f) {
+		if _, isHelper := helperRank[f]; f == fn || isMainPkg(f) || isHelper {
 			continue
 		}
 		an.EachInstr(f, func(in ssa.Instruction) {
